@@ -1,9 +1,9 @@
 package props
 
 import (
+	"fmt"
 	"go/token"
 	"go/types"
-	"fmt"
 	"strings"
 
 	"czcheck/an"
